@@ -10,7 +10,7 @@ import z3
 from pyvc import values as V, engine as E, interp as I, ops, vc
 from pyvc.runner import Unit
 from pyvc.values import SObj, SEnum
-from checks import e1
+from checks import e1, regions
 
 MAX_EXTENSIONS = 2
 
@@ -27,8 +27,14 @@ def _abstract(P, cls, name, min_len=0):
     return o, w
 
 
-def thunk():
-    from cryptoparser.tls.subprotocol import TlsHandshakeServerHello, TlsHandshakeHelloRandom, TlsSessionIdVector, TlsCompressionMethod
+def thunk_for(cls_name, random_field):
+    return lambda: _thunk(cls_name, random_field)
+
+
+def _thunk(cls_name, random_field):
+    from cryptoparser.tls import subprotocol as _SP
+    from cryptoparser.tls.subprotocol import TlsHandshakeHelloRandom, TlsSessionIdVector, TlsCompressionMethod
+    TlsHandshakeServerHello = getattr(_SP, cls_name)
     from cryptoparser.tls.version import TlsProtocolVersion
     from cryptoparser.tls.extension import TlsExtensionVariantServer
     from cryptodatahub.tls.algorithm import TlsCipherSuite
@@ -55,7 +61,7 @@ def thunk():
         o, w = _abstract(P, TlsExtensionVariantServer, 'extension_%d' % k, 4)
         exts.append(o)
         w_exts.append(w)
-    hello = SObj(TlsHandshakeServerHello, dict(protocol_version=version, random=rnd, session_id=sid, cipher_suite=suite,
+    hello = SObj(TlsHandshakeServerHello, dict({random_field: rnd}, protocol_version=version, session_id=sid, cipher_suite=suite,
                                                compression_method=comp, extensions=exts))
     out = vc.outcome_of(lambda: I.call(I.getattr_(hello, 'compose'), [], {}))
     if out.kind != 'ret':
@@ -71,9 +77,22 @@ def thunk():
     if exts:
         eb = cat(*w_exts)
         body = cat(body, u16(eb.n), eb)
+    # RFC 8446 4.1.4: a HelloRetryRequest IS a ServerHello on the wire (msg_type server_hello(2), the special Random value);
+    # handshake type 6 is hello_retry_request_RESERVED, the message of the drafts up to 21, which had another structure
     want = cat(u8(TABLES['TlsHandshakeType']['SERVER_HELLO']), u24(body.n), body)
-    vc.oblige_equal(P, 'K6 ServerHello [%d extensions]: type 2, uint24 length, version, random, session id, cipher suite, compression '
-                    'method, extension block in list order (RFC 5246 7.4.1.3)' % len(exts), wire, want)
+    label = 'ServerHello' if cls_name == 'TlsHandshakeServerHello' else 'HelloRetryRequest'
+    if cls_name == 'TlsHandshakeHelloRetryRequest' and KF_HRR in regions.listed_regions():
+        # listed known finding (replayed natively on every run): the type octet is 6; everything after it is still stated
+        P.oblige('K6 %s [%d extensions]: as many octets as the specification prescribes' % (label, len(exts)), wire.n == want.n)
+        vc.oblige_equal(P, 'K6 %s [%d extensions]: after the type octet - uint24 length, version, random, session id, cipher suite, '
+                        'compression method, extension block in list order (RFC 8446 4.1.3)' % (label, len(exts)),
+                        V.slice_seq(wire, 1, wire.n).copy('bytes'), V.slice_seq(want, 1, want.n).copy('bytes'))
+        return
+    vc.oblige_equal(P, 'K6 %s [%d extensions]: type 2, uint24 length, version, random, session id, cipher suite, compression '
+                    'method, extension block in list order (RFC 5246 7.4.1.3 / RFC 8446 4.1.3)' % (label, len(exts)), wire, want)
+
+
+KF_HRR = 'hello-retry-request-type-6'
 
 
 def native(seed=0, hints=()):
@@ -106,13 +125,43 @@ def native(seed=0, hints=()):
     return dict(reproduced=False)
 
 
-def unit():
+def native_hrr(seed=0, hints=()):
+    import struct
+    from cryptoparser.tls.subprotocol import TlsHandshakeHelloRetryRequest, TLS_HANDSHAKE_HELLO_RETRY_REQUEST_RANDOM_BYTES
+    from cryptoparser.tls.extension import TlsExtensionUnparsed, TlsExtensionsServer
+    from cryptodatahub.tls.algorithm import TlsCipherSuite, TlsExtensionType
+    listed = KF_HRR in regions.listed_regions()
+    T = TlsExtensionType
+    for exts in ([], [TlsExtensionUnparsed(T.SUPPORTED_VERSIONS, b'\x03\x04')], [TlsExtensionUnparsed(T.KEY_SHARE, b'\x00\x1d'), TlsExtensionUnparsed(T.SUPPORTED_VERSIONS, b'\x03\x04')]):
+        for sid in (b'', bytes(range(32))):
+            suite = list(TlsCipherSuite)[-1]
+            o = TlsHandshakeHelloRetryRequest(cipher_suite=suite, session_id=list(sid), extensions=TlsExtensionsServer(exts))
+            eb = b''.join(bytes(e.compose()) for e in exts)
+            body = b'\x03\x04' + TLS_HANDSHAKE_HELLO_RETRY_REQUEST_RANDOM_BYTES + bytes([len(sid)]) + sid + struct.pack('!H', suite.value.code) + \
+                b'\x00' + ((struct.pack('!H', len(eb)) + eb) if exts else b'')
+            want = b'\x02' + struct.pack('!I', len(body))[1:] + body
+            got = bytes(o.compose())
+            if (got[1:] != want[1:]) or (not listed and got != want):
+                return dict(reproduced=True, call='TlsHandshakeHelloRetryRequest(%s, session id of %d, %d extensions).compose()' % (suite.name, len(sid), len(exts)),
+                            expected=want.hex()[:200], observed=got.hex()[:200], key='hello retry request layout')
+    return dict(reproduced=False)
+
+
+def _unit(cls_name, random_field, search):
     def run():
         from contracts import nested
         e1.setup()
         nested.ABSTRACT_DISABLED = False
-        r = vc.run_unit('server-hello', thunk, max_paths=400)
+        r = vc.run_unit('server-hello', thunk_for(cls_name, random_field), max_paths=400)
         r.extra['bounded'] = sorted(set(r.extra.get('bounded', [])) | {'extension lists of at most %d extensions (each an arbitrary byte string of its class)' % MAX_EXTENSIONS})
         return r
-    return Unit('K6/tls.subprotocol.TlsHandshakeServerHello.compose (nested structures by their class contracts)', run,
-                replay=lambda inputs: native(0), search=native, clause='K6', functions=['TlsHandshakeServerHello.compose', 'TlsHandshakeHello._compose_extensions'])
+    return Unit('K6/tls.subprotocol.%s.compose (nested structures by their class contracts)' % cls_name, run,
+                replay=lambda inputs: search(0), search=search, clause='K6', functions=['%s.compose' % cls_name, 'TlsHandshakeHello._compose_extensions'])
+
+
+def unit():
+    return _unit('TlsHandshakeServerHello', 'random', native)
+
+
+def hrr_unit():
+    return _unit('TlsHandshakeHelloRetryRequest', 'random_bytes', native_hrr)
